@@ -171,6 +171,9 @@ def beam_map(chk, prog, names, m):
     chk.check(not bad.any(), key + "/before", "before the first border line the position is not (0,0)")
     bad = after & (end == 0)
     chk.check(not bad.any(), key + "/after", "after the last border line frame_end is not reported at %d clocks, e.g. T=%s" % (int(bad.sum()), ti[bad][0] if bad.any() else "-"))
+    # with frame_end the reported position is the start of the frame, so a fill up to it paints nothing
+    bad = (end != 0) & (got_idx != 0)
+    chk.check(not bad.any(), key + "/end-position", "frame_end is reported together with a position other than (0,0) at %d clocks" % int(bad.sum()))
     chk.count("beam-rows", n)
     chk.sample({"machine": m, "T": first, "border_pixel": [int(line[first]), int(pix[first])], "beam": [int(by[first]), int(bx[first])]})
 
@@ -266,9 +269,11 @@ def device(chk, prog, names):
             if block:
                 chk.check(not fills, key + "/blocked", "painting after the frame was completed")
             else:
-                want = 2 if endf else 1
-                ok = len(fills) == want and all(isinstance(f[1].fields[bi("color")], Agg) and f[1].fields[bi("color")].variant == 2 for f in fills)
-                ok = ok and fills[-1][2] is tm.sym("LINE", 64) and fills[-1][3] is tm.sym("PIXEL", 64)
+                # past the last border pixel: paint to the end of the frame; a further fill up to the reported
+                # position may follow (it is empty: the position reported with frame_end is the start of the frame)
+                ok = len(fills) in ((1, 2) if endf else (1,)) and all(isinstance(f[1].fields[bi("color")], Agg) and f[1].fields[bi("color")].variant == 2 for f in fills)
+                if ok and (not endf or len(fills) == 2):
+                    ok = fills[-1][2] is tm.sym("LINE", 64) and fills[-1][3] is tm.sym("PIXEL", 64)
                 if endf and ok:
                     ok = fills[0][2].is_const() and fills[0][3].is_const() and fills[0][2].val * W + fills[0][3].val == H * W
                 chk.check(ok, key + "/paint-old-colour", "set_border must paint [last change, beam) with the previous colour: %s" % (fills,))
